@@ -1,3 +1,328 @@
 package main
 
-func runGround(c *checkCtx, cov map[string]interface{}) int { return 0 }
+// Ground obligations (C17): closed formulas over constants read from the program (go/types + go/ssa of the 19
+// dialect packages), discharged by the solvers like any other obligation.
+
+import (
+	"fmt"
+	"go/ast"
+	"go/types"
+	"os"
+	"path/filepath"
+	"reflect"
+	"sort"
+	"strconv"
+	"strings"
+
+	"golang.org/x/tools/go/packages"
+	"golang.org/x/tools/go/ssa"
+)
+
+func runGround(c *checkCtx, cov map[string]interface{}) int {
+	want := false
+	for _, g := range c.conf.Ground {
+		if g == "dialects" {
+			want = true
+		}
+	}
+	if !want {
+		return 0
+	}
+	ents, err := os.ReadDir(filepath.Join(repoDir, "pkg/dialects"))
+	if err != nil {
+		return 0
+	}
+	var rels []string
+	for _, e := range ents {
+		if e.IsDir() {
+			rels = append(rels, "pkg/dialects/"+e.Name())
+		}
+	}
+	sort.Strings(rels)
+	ld, err := load(repoDir, rels, filepath.Join(verifDir, "spec"))
+	if err != nil {
+		p := filepath.Join(c.outDir, "ground-load-error.txt")
+		os.WriteFile(p, []byte("obligation: bind:ground:load\n\n"+err.Error()+"\n"), 0o644)
+		c.violation("bind:ground:load", p, false)
+		return 1
+	}
+	var obls []*Obligation
+	add := func(name string, goal *Term, info string) {
+		obls = append(obls, &Obligation{Name: "ground:" + name, Kind: "ground", Func: "ground", Goal: goal, Expect: "unsat", Info: map[string]string{"detail": info}})
+	}
+	type msgUse struct {
+		dialect string
+		t       types.Type
+	}
+	byName := map[string][]msgUse{}
+	enumVals := map[string]map[string]string{} // const name -> value -> package
+	structs := map[string]*types.Named{}
+	nMsgs := 0
+	for _, rel := range rels {
+		dn := filepath.Base(rel)
+		sp := ld.eng.pkgs[relToImport(rel)]
+		var pk = findLoaded(ld, relToImport(rel))
+		if sp == nil || pk == nil {
+			add("dialect-loaded:"+dn, False, "package not loaded")
+			continue
+		}
+		// the Messages list of the dialect literal
+		var elems []ast.Expr
+		for _, f := range pk.Syntax {
+			ast.Inspect(f, func(n ast.Node) bool {
+				kv, ok := n.(*ast.KeyValueExpr)
+				if !ok {
+					return true
+				}
+				if id, ok := kv.Key.(*ast.Ident); ok && id.Name == "Messages" {
+					if cl, ok := kv.Value.(*ast.CompositeLit); ok {
+						elems = cl.Elts
+					}
+				}
+				return true
+			})
+		}
+		if len(elems) == 0 {
+			add("dialect-messages-literal:"+dn, False, "Messages literal not found")
+			continue
+		}
+		var ids []*Term
+		var idInfo []string
+		for _, el := range elems {
+			tv, ok := pk.TypesInfo.Types[el]
+			if !ok {
+				continue
+			}
+			pt, ok := tv.Type.(*types.Pointer)
+			if !ok {
+				add("dialect-message-shape:"+dn, False, "element is not &Message{}")
+				continue
+			}
+			nMsgs++
+			fn := ld.eng.prog.LookupMethod(pt, nil, "GetID")
+			id, ok := constReturn(fn)
+			nm := types.TypeString(pt.Elem(), func(p *types.Package) string { return "" })
+			nm = strings.TrimPrefix(nm, ".")
+			if !ok {
+				add("getid-const:"+dn+"."+nm, False, "GetID does not return a constant")
+				continue
+			}
+			ids = append(ids, Const(32, id))
+			idInfo = append(idInfo, fmt.Sprintf("%s=%d", nm, id))
+			byName[nm] = append(byName[nm], msgUse{dn, pt.Elem()})
+			if named, ok := types.Unalias(pt.Elem()).(*types.Named); ok {
+				structs[named.Obj().Pkg().Name()+"."+named.Obj().Name()] = named
+			}
+		}
+		// ids pairwise distinct within the dialect
+		var ne []*Term
+		for i := 0; i < len(ids); i++ {
+			for j := i + 1; j < len(ids); j++ {
+				ne = append(ne, Ne(ids[i], ids[j]))
+			}
+		}
+		add("ids-unique:"+dn, And(ne...), fmt.Sprintf("%d messages", len(ids)))
+		// enum constants declared in this package
+		scope := pk.Types.Scope()
+		for _, n := range scope.Names() {
+			cn, ok := scope.Lookup(n).(*types.Const)
+			if !ok {
+				continue
+			}
+			named, ok := types.Unalias(cn.Type()).(*types.Named)
+			if !ok {
+				continue
+			}
+			if b, ok := named.Underlying().(*types.Basic); !ok || b.Kind() != types.Uint64 {
+				continue
+			}
+			if enumVals[n] == nil {
+				enumVals[n] = map[string]string{}
+			}
+			enumVals[n][cn.Val().ExactString()] = dn
+		}
+	}
+	// a message included from another dialect is the very same Go type
+	var names []string
+	for n := range byName {
+		names = append(names, n)
+	}
+	sort.Strings(names)
+	shared := 0
+	for _, n := range names {
+		us := byName[n]
+		if len(us) < 2 {
+			continue
+		}
+		shared++
+		same := true
+		for _, u := range us[1:] {
+			if !types.Identical(us[0].t, u.t) {
+				same = false
+			}
+		}
+		if !same {
+			add("same-type-across-dialects:"+n, False, "message "+n+" is a different Go type in two dialects")
+		}
+	}
+	add("same-type-across-dialects", BoolConst(true), fmt.Sprintf("%d message names shared between dialects", shared))
+	// an enum constant has one value wherever it is defined
+	nShared := 0
+	for n, vs := range enumVals {
+		if len(vs) > 1 {
+			var parts []string
+			for v, d := range vs {
+				parts = append(parts, d+"="+v)
+			}
+			sort.Strings(parts)
+			add("enum-constant-one-value:"+n, False, strings.Join(parts, " "))
+		}
+		nShared++
+	}
+	add("enum-constant-one-value", BoolConst(true), fmt.Sprintf("%d constant names", nShared))
+	// every message fits the payload limit (independent size computation from go/types)
+	var snames []string
+	for n := range structs {
+		snames = append(snames, n)
+	}
+	sort.Strings(snames)
+	for _, n := range snames {
+		sz, err := wireSize(structs[n])
+		if err != nil {
+			add("wire-size:"+n, False, err.Error())
+			continue
+		}
+		t := Const(64, uint64(sz))
+		add("wire-size:"+n, And(CmpBV("bvule", Const(64, 1), t), CmpBV("bvule", t, Const(64, 255))), fmt.Sprintf("%d bytes", sz))
+	}
+	vs := discharge(obls, dischargeOpts{timeoutS: 20, workers: (numCPU() + 1) / 2})
+	sums := summarize(vs)
+	nOb, nDis := 0, 0
+	var failed []string
+	for _, ns := range sums {
+		nOb++
+		if len(ns.Failed) == 0 && len(ns.Unknown) == 0 {
+			nDis++
+			continue
+		}
+		failed = append(failed, ns.Name)
+		p := filepath.Join(c.outDir, "ground-"+strings.NewReplacer(":", "_", "/", "_", "*", "P").Replace(ns.Name)+".txt")
+		detail := ""
+		for _, v := range append(ns.Failed, ns.Unknown...) {
+			detail += v.O.Info["detail"] + "\n"
+		}
+		os.WriteFile(p, []byte("obligation: "+ns.Name+"\nclosed formula over program constants; the constants ARE the failing input:\n"+detail), 0o644)
+		c.violation(ns.Name, p, true)
+	}
+	cov["obligations"] = asInt(cov["obligations"]) + nOb
+	cov["discharged"] = asInt(cov["discharged"]) + nDis
+	cov["ground"] = map[string]interface{}{"dialect_packages": len(rels), "messages_in_dialect_lists": nMsgs, "distinct_message_structs": len(structs),
+		"shared_message_names": shared, "enum_constant_names": nShared, "obligations": nOb, "failed": failed}
+	if _, ok := cov["trusted_base"]; !ok {
+		cov["trusted_base"] = []string{}
+	}
+	if len(failed) > 0 {
+		return 1
+	}
+	return 0
+}
+
+func findLoaded(ld *Loaded, path string) *loadedPkg {
+	for _, p := range ld.eng.loadedPkgs {
+		if p.PkgPath == path {
+			return p
+		}
+	}
+	return nil
+}
+
+// constReturn: the constant returned by a function whose every return returns the same constant.
+func constReturn(fn *ssa.Function) (uint64, bool) {
+	if fn == nil {
+		return 0, false
+	}
+	// method wrappers: follow the single call
+	for depth := 0; depth < 4 && fn != nil; depth++ {
+		var val *uint64
+		var next *ssa.Function
+		for _, b := range fn.Blocks {
+			for _, in := range b.Instrs {
+				switch x := in.(type) {
+				case *ssa.Return:
+					if len(x.Results) != 1 {
+						return 0, false
+					}
+					switch r := x.Results[0].(type) {
+					case *ssa.Const:
+						u := r.Uint64()
+						if val != nil && *val != u {
+							return 0, false
+						}
+						val = &u
+					case *ssa.Call:
+						next = r.Call.StaticCallee()
+					default:
+						return 0, false
+					}
+				}
+			}
+		}
+		if val != nil {
+			return *val, true
+		}
+		fn = next
+	}
+	return 0, false
+}
+
+// wireSize: extended payload size of a message struct from its Go definition and tags (independent of pkg/message).
+func wireSize(named *types.Named) (int, error) {
+	st, ok := named.Underlying().(*types.Struct)
+	if !ok {
+		return 0, fmt.Errorf("not a struct")
+	}
+	sizes := map[string]int{"uint8": 1, "int8": 1, "uint16": 2, "int16": 2, "uint32": 4, "int32": 4, "uint64": 8, "int64": 8, "float32": 4, "float64": 8}
+	total := 0
+	for i := 0; i < st.NumFields(); i++ {
+		f := st.Field(i)
+		tag := reflect.StructTag(st.Tag(i))
+		t := f.Type()
+		n := 1
+		if at, ok := t.Underlying().(*types.Array); ok {
+			n = int(at.Len())
+			t = at.Elem()
+		}
+		if en := tag.Get("mavenum"); en != "" {
+			sz, ok := sizes[en]
+			if !ok {
+				return 0, fmt.Errorf("field %s: bad mavenum %q", f.Name(), en)
+			}
+			total += sz * n
+			continue
+		}
+		b, ok := t.Underlying().(*types.Basic)
+		if !ok {
+			return 0, fmt.Errorf("field %s: unsupported type %s", f.Name(), t)
+		}
+		if b.Kind() == types.String {
+			l := 1
+			if ml := tag.Get("mavlen"); ml != "" {
+				v, err := strconv.Atoi(ml)
+				if err != nil {
+					return 0, fmt.Errorf("field %s: bad mavlen", f.Name())
+				}
+				l = v
+			}
+			total += l
+			continue
+		}
+		sz, ok := sizes[b.Name()]
+		if !ok {
+			return 0, fmt.Errorf("field %s: unsupported type %s", f.Name(), b.Name())
+		}
+		total += sz * n
+	}
+	return total, nil
+}
+
+type loadedPkg = packages.Package
